@@ -35,8 +35,10 @@ def main(argv):
     # vouching: transactions of untrusted connections (plain and extended messages, inventories) never make a tx trusted or safe
     if not chk.replay:
         from . import txpipeline as tp
-        tsims = tp.gen(chk, 'U4', 160 if thorough else 50, 45, chk.seed * 100 + 23) + tp.gen(chk, 'U3', 160 if thorough else 50, 40, chk.seed * 100 + 24)
-        tres = tp.run(chk, tsims, {'TrustWarranted', 'ItemTrust', 'SafeOnlyWarranted', 'NoError', 'NoPanic'})
+        allsrc = {'Sources <- Src5': 'Sources <- SrcAll'}     # incl. an untrusted connection that has not been verified ("NU" / "NX")
+        tsims = (tp.gen(chk, 'U4', 160 if thorough else 50, 45, chk.seed * 100 + 23, extra=allsrc)
+                 + tp.gen(chk, 'U3', 160 if thorough else 50, 40, chk.seed * 100 + 24, extra=allsrc))
+        tres = tp.run(chk, tsims, {'TrustWarranted', 'ItemTrust', 'SafeOnlyWarranted', 'UnverifiedIgnored', 'NoError', 'NoPanic'})
         chk.notes.append('vouching batch: %d TxPipeline histories, %d lines' % (len(tsims), tres['lines']))
     nu = sum(1 for s in scripts for x in s['steps'] if x['a'] == 'UntrustedBlock')
     chk.finish({
